@@ -920,6 +920,9 @@ class _FunctionInformationCollector(ast.RopeNodeVisitor):
         read = OrderedSet(self.read)
         written = OrderedSet(self.written)
         maybe_written = OrderedSet(self.maybe_written)
+        prewritten = OrderedSet(self.prewritten)
+        postread = OrderedSet(self.postread)
+        postwritten = OrderedSet(self.postwritten)
 
         for child in ast.iter_child_nodes(node):
             self.visit(child)
@@ -933,6 +936,11 @@ class _FunctionInformationCollector(ast.RopeNodeVisitor):
         self.read = self.read - comp_names | read
         self.written = self.written - comp_names | written
         self.maybe_written = self.maybe_written - comp_names | maybe_written
+        # the loop variables of a comprehension before or after the region are
+        # not variables of the function either
+        self.prewritten = self.prewritten - comp_names | prewritten
+        self.postread = self.postread - comp_names | postread
+        self.postwritten = self.postwritten - comp_names | postwritten
 
     def _flatten_nested_tuple_of_names(self, node):
         if isinstance(node, ast.Tuple):
